@@ -95,7 +95,7 @@ class CallMixin:
             return [self.raise_(st, 'AttributeError', origin='None.%s L%d' % (attr, ln))]
         if isinstance(o, SStr):
             if attr in ('strip', 'startswith', 'endswith', 'split', 'replace', 'lower', 'upper', 'lstrip', 'rstrip', 'title', 'casefold',
-                        'decode', 'encode'):
+                        'decode', 'encode', 'format'):
                 out = []
                 for s2, isnull in self.branch(st, o.t == none_s, 'isnone'):
                     if isnull:
@@ -812,6 +812,19 @@ class CallMixin:
         self.assumed_used.add('A-STR')
         args = [f.self_val.t] + [x.t for x in extra if isinstance(x, SStr)]
         r = SStr(L.mkfun('str_' + name + ('%d' % len(args) if len(args) > 1 else ''), *([Str] * (len(args) + 1)))(*args))
+        st.assume(r.t != none_s)
+        return [(st, r)]
+
+    def bi_str_format(self, f, pos, kws, st, ln):
+        # '{}ID'.format(tag) is the ID tag name (as f'{tag}ID'); every other formatted text is an opaque, non-None message string
+        s = f.self_val
+        if s.py in ('{}ID', '{0}ID') and len(pos) == 1 and not kws and isinstance(pos[0], SStr):
+            x = pos[0]
+            return [(st, self.lit(x.py + 'ID') if x.py is not None else SStr(L.idtag(x.t)))]
+        if s.py is None:
+            raise ToolLimit('format() of a computed format string')
+        r = SStr(self.W.fresh('fmt', Str))
+        r.parts = list(pos) + list(kws.values())
         st.assume(r.t != none_s)
         return [(st, r)]
 
